@@ -37,7 +37,7 @@ func hashCheckers(p *core.Prog) []*ssa.Function {
 func c13(c *Ctx) {
 	p, r := c.P, c.R
 	r.Technique = "must-pass-through (cut) checks of the hash-link gate chain inside the proof walker (per loop iteration) and of the final gates in the node/bytecode validators; provenance of the root (oracle header for the content's block hash) and of what reaches the store; structural check that each traversal case consumes the nibbles it compared"
-	r.Explanation = "Decides: (R1) the hash comparer returns nil only under bytes.Equal(node hash, expected); the proof walker succeeds only for a non-empty proof whose first node passed the comparer against the root argument, and in every loop iteration the carried node is replaced by the next proof element only after decoding the carried node, traversing it with the carried remaining path and the comparer succeeding on (next element, reference returned by that traversal); the carried path becomes exactly the traversal's remainder; the walk succeeds only after the loop ran out of proof elements (no early exit to a success return, so surplus nodes are decoded and linked too); (R2) the trie-node validator returns nil only under len(remaining) == 0 and the comparer succeeding on (last node, key's node hash), with the walker applied to (root, key path, content proof); the bytecode validator only under account code hash == key code hash for the account proven by the walker under the key's address hash; every root argument derives from the oracle's header for the content's own block hash (header binding is C02.R3) and the storage-trie root from the proven account; oracle and decode errors stop validation; unknown selectors fail; (R3) the state store writes only the last proof element (re-hashed and compared with the key's node hash) or the code (hashed and compared with the key's code hash), nothing else from the proof; (R4) traversal: the branch case indexes with path[0] and continues with path[1:], the extension case compares every key nibble with the path and continues with path[len(key):], the leaf case requires the remaining path to equal the key prefix and hands the path back unconsumed (what the walker's progress test relies on to tell a leaf's value from a child reference). Not decided: soundness over all tries; panics on malformed nodes are C01's."
+	r.Explanation = "Decides: (R1) the hash comparer returns nil only under bytes.Equal(node hash, expected); the proof walker succeeds only for a non-empty proof whose first node passed the comparer against the root argument, and in every loop iteration the carried node is replaced by the next proof element only after decoding the carried node, traversing it with the carried remaining path and the comparer succeeding on (next element, reference returned by that traversal); the carried path becomes exactly the traversal's remainder; the walk succeeds only after the loop ran out of proof elements (no early exit to a success return, so surplus nodes are decoded and linked too); (R2) the trie-node validator returns nil only under len(remaining) == 0 and the comparer succeeding on (last node, key's node hash), with the walker applied to (root, key path, content proof); the bytecode validator only under account code hash == key code hash for the account proven by the walker under the key's address hash, the account being the value the traversal of the last proof node yields for the remaining address path; every root argument derives from the oracle's header for the content's own block hash (header binding is C02.R3) and the storage-trie root from the proven account; oracle and decode errors stop validation; unknown selectors fail; (R3) the state store writes only the last proof element (re-hashed and compared with the key's node hash) or the code (hashed and compared with the key's code hash), nothing else from the proof; (R4) traversal: the branch case indexes with path[0] and continues with path[1:], the extension case compares every key nibble with the path and continues with path[len(key):], the leaf case requires the remaining path to equal the key prefix and hands the path back unconsumed (what the walker's progress test relies on to tell a leaf's value from a child reference). Not decided: soundness over all tries; panics on malformed nodes are C01's."
 	r.Assumptions = []string{"keccak256 collision resistance", "trie node decoding (go-ethereum derived) is faithful"}
 	r.Floor("R1.hash-link", 8)
 	r.Floor("R2.final-gates", 9)
@@ -475,6 +475,42 @@ func c13(c *Ctx) {
 			w := core.CutReach(core.CutSpec{Fn: fn, Cut: func(b *ssa.BasicBlock, i int) bool { return g(core.EdgeFacts(b, i)) }, Target: core.SuccessTarget(fn, nil)})
 			r.Check(w == nil, "R2.final-gates", name+" code-hash", p.Pos(fn.Pos()), "nil only if the proven account's code hash equals the key's code hash", "bytecode can be accepted although the proven account's code hash differs from the key's: "+p.PathString(w))
 		}
+	}
+	// account leg: the account handed on is what the trie traversal of the LAST proof node yields
+	// for the path the walker left over - that traversal is what compares the leaf's key with the
+	// rest of the address path, i.e. what makes the proven account the one the key names
+	for fn := range p.CallersOfFn(W) {
+		if fn.Signature.Results().Len() != 2 || !strings.HasSuffix(fn.Signature.Results().At(0).Type().String(), "StateAccount") {
+			continue
+		}
+		name := core.FuncName(fn)
+		wc := p.CallersOfFn(W)[fn][0].(*ssa.Call)
+		var trav *ssa.Call
+		core.Calls(fn, func(ci ssa.CallInstruction) {
+			if cc, ok := ci.(*ssa.Call); ok && strings.HasSuffix(core.CalleeID(cc), "trie.TraverseTrieNode") {
+				trav = cc
+			}
+		})
+		okT := false
+		if trav != nil {
+			// traverse(decode(walker's node), walker's remaining path)
+			okNode := core.Derives(trav.Call.Args[0], func(v ssa.Value) bool {
+				dc, ok := v.(*ssa.Call)
+				return ok && strings.HasSuffix(core.CalleeID(dc), "trie.DecodeTrieNode") && core.Derives(dc.Call.Args[len(dc.Call.Args)-1], func(x ssa.Value) bool { return core.ResultOf(x, wc, 0) }, core.DeriveOpts{})
+			}, core.DeriveOpts{})
+			okPath := core.ResultOf(trav.Call.Args[1], wc, 1)
+			// the account returned derives from the traversal's value, and its error gates success
+			okVal := false
+			for _, ret := range core.Returns(fn) {
+				if core.Derives(core.ResolveSpill(ret.Results[0]), func(v ssa.Value) bool { return core.ResultOf(v, trav, 0) }, core.DeriveOpts{ThroughCalls: true}) {
+					okVal = true
+				}
+			}
+			g := core.ErrNilGate("traverse", func(c2 *ssa.Call) bool { return c2 == trav })
+			wg := core.CutReach(core.CutSpec{Fn: fn, Cut: func(b *ssa.BasicBlock, i int) bool { return g.Edge(core.EdgeFacts(b, i)) }, Target: core.SuccessTarget(fn, func(v ssa.Value) bool { _, isC := v.(*ssa.Extract); return isC })})
+			okT = okNode && okPath && okVal && wg == nil
+		}
+		r.Check(okT, "R2.final-gates", name+" account-is-the-leaf-on-the-path", p.Pos(fn.Pos()), "the account is the value the traversal of the last proof node yields for the remaining address path", "the account handed on is not obtained by traversing the last proof node with the remaining address path: the leaf's key is then never compared with the rest of the path, and the proof of a neighbouring account is accepted for an address it does not belong to (its code and storage validate under the wrong address)")
 	}
 	// node validator: len(remaining)==0 and final hash
 	for fn := range p.CallersOfFn(W) {
